@@ -169,12 +169,40 @@ def _precondition(root):
     return True
 
 
+def _nothing_decoded_as_returned(an) -> bool:
+    for h in an.rec.hits:
+        if h.value and not (0 <= h.start <= h.end <= len(h.text) and h.value == h.text[h.start : h.end]):
+            return False
+    for n, p, _ in an.nodes:
+        if id(n) in an.supplied_by and p is not None and n.value != p.value[n.start : n.end]:
+            return False
+    return True
+
+
+def _partial_overlap(an) -> bool:
+    iv = sorted({(h.start, h.end) for h in an.rec.hits if h.value and h.text is an.data})
+    return any(a < c < b < d for i, (a, b) in enumerate(iv) for (c, d) in iv[i + 1 :])
+
+
 def check_scan(case) -> Outcome:
     o = Outcome()
     an = E.analyse_doc(case, o)
     if an is None:
         return o
     root = an.root
+    if _nothing_decoded_as_returned(an):
+        # "the scan of an input in which nothing is decoded flattens to the root value unchanged": judged on what the decoders
+        # returned (every value is the text under its own span), whatever tree the engine built from it
+        o.label("nothing-decoded:as-returned")
+        if _partial_overlap(an):
+            o.label("nothing-decoded:partially-overlapping-hits")
+        try:
+            flat = root.flatten()
+        except RecursionError:
+            return o.exclude("deep-nesting(K5)")
+        if flat != case["data"]:
+            o.violate("flatten:undecoded-scan-changed", {"data": case["data"], "got": flat})
+            return o
     if not _precondition(root):
         return o.exclude("tree-violates-precondition(K1/K2)")
     try:
@@ -202,7 +230,7 @@ def check_scan(case) -> Outcome:
 
 def undecoded_docs():
     """documents made of plain indicators only (nothing decodable): flatten must be the identity"""
-    frag = st.one_of(S.frag_net(), S.frag_path(), st.sampled_from(S.KEYWORDS), S.neutral(1, 3), st.sampled_from([b"CreateObject(x)", b"cmd /c dir", b"(", b")", b"'", b'"']))
+    frag = st.one_of(S.frag_net(), S.frag_path(), S.frag_straddle(), S.frag_straddle(), st.sampled_from(S.KEYWORDS), S.neutral(1, 3), st.sampled_from([b"CreateObject(x)", b"cmd /c dir", b"(", b")", b"'", b'"']))
     return st.lists(st.tuples(frag, st.sampled_from([b" ", b"\n", b"; "])).map(b"".join), min_size=1, max_size=6).map(b"".join)
 
 
